@@ -162,6 +162,27 @@ class Source:
         return Piece(self.text[s:e], self.rel, line_of(self.text, s), name or header_regex), (s, e)
 
 
+def cut_statements(source, fn_header_regex, first_anchor, last_anchor, name):
+    """cut the statements from the one starting at `first_anchor` through the one containing
+    `last_anchor`, both inside the function whose header matches fn_header_regex (statement-slice
+    extraction: the surrounding function is NOT verified, only these statements inside a generated
+    frame)"""
+    fn_piece, (fs, fe) = source.cut(fn_header_regex, name)
+    text, mask = source.text, source.mask
+    def find(pat):
+        hits = [i for i in range(fs, fe) if text.startswith(pat, i) and mask[i]]
+        if len(hits) != 1:
+            raise WeaveError("lost anchor: %d matches for `%s` in %s" % (len(hits), pat, name))
+        return hits[0]
+    a = find(first_anchor)
+    b = find(last_anchor)
+    if b < a:
+        raise WeaveError("statement anchors out of order in %s" % name)
+    start = text.rfind("\n", 0, a) + 1
+    end = _stmt_span(text, mask, b)
+    return Piece(text[start:end], source.rel, line_of(text, start), name)
+
+
 def methods_of(piece):
     """methods (name -> Piece incl. preceding attributes) of a trait/impl block piece, plus the
     offsets (start,end) inside piece.text"""
